@@ -172,6 +172,10 @@ def _run_history(h):
             f.write(bytes(img))
         paths.append(p)
     evs = []
+    one_path = os.path.join(tmpdir, "current.boot")
+    paths.append(one_path)
+    with open(one_path, "wb") as f:
+        f.write(b"")
     try:
         for b in h["boots"]:
             intended = dict(h["dicts"][b["dict"]]) if b["dict"] is not None else {}
@@ -182,6 +186,11 @@ def _run_history(h):
             if b["image"] is not None:
                 kwargs["scamp_binary"] = paths[b["image"]]
                 image = bytes(h["images"][b["image"]])
+                if h.get("one_path"):
+                    # the caller keeps ONE file name and rebuilds the image in place before each boot
+                    kwargs["scamp_binary"] = one_path
+                    with open(one_path, "wb") as f:
+                        f.write(image)
             else:
                 with open(os.path.join(RIG_ROOT, "rig", "boot", "scamp.boot"), "rb") as f:
                     image = f.read()
@@ -325,7 +334,7 @@ def random_history(rng, cat, idx, big):
         boots.append(dict(via=rng.choice(["boot", "boot", "boot", "mc", "mc_if_needed"]), dict=d, kw=kw,
                           host="10.0.%d.%d" % (idx % 250, j + 1), port=rng.choice([None, None, 54321, 12345]),
                           image=rng.randrange(len(images))))
-    return dict(label="random%d" % idx, dicts=dicts, images=images, boots=boots)
+    return dict(label="random%d" % idx, dicts=dicts, images=images, boots=boots, one_path=rng.random() < 0.35)
 
 
 def default_image_histories():
